@@ -209,13 +209,15 @@ def gen_cases(chk):
                 [["fill", 1, None]], [["lat", 2, 2]], [["lat", 1, None]], [["vol_calc", False]], [["imp_all", 0, 2.0]],
                 [["observe", 1]]]
     nsmall = 0
-    for text in small_texts():
+    few_flags = [[i, a, b, b, b] for i in (False, True) for a in (False, True) for b in (False, True)]
+    for nshape, text in enumerate(small_texts()):
         three = "mode n p e" in text
         for ops in alphabet:
             ops = [o if o[0] != "append" or three else ["append", dict(o[1], imp={k: v for k, v in o[1]["imp"].items() if k != "e"})] for o in ops]
             if not three and any(o[0] == "imp" and o[2] == "e" for o in ops):
                 continue
-            for fl in ALL_FLAGS:
+            # the first six shapes under all 32 flag vectors; the importance shapes under 8 (IMP x VOL x the rest)
+            for fl in (ALL_FLAGS if nshape < 6 else few_flags):
                 cases.append({"text": text, "limit": 128, "ops": [["flags", fl], ["write"]] + ops + [["write"]], "src": "small"})
                 nsmall += 1
     # 3. MontePy's own fixtures: every flag vector, then the opposite vector, then back (switching back and forth)
@@ -632,7 +634,7 @@ def run(chk):
 
     cases = gen_cases(chk)
     chk.exhaustive = {"flag_vectors": "all 32 for every generated problem, small shape and (thorough) fixture",
-                      "small_shapes": "6 shapes x 18 single operations x 32 flag vectors"}
+                      "small_shapes": "6 shapes x 21 single operations x 32 flag vectors + 5 importance shapes x 21 x 8, each: flags, write, operation, write"}
     for c in cases:
         c.pop("_", None)
     impl = pmap(ci.run_impl, [{k: v for k, v in c.items() if k != "src"} for c in cases], chunksize=16)
